@@ -37,6 +37,15 @@ Definition dev_write (dv : dev) (off : N) (data : bytes) : dev * N * bool :=
   end.
 Definition dev_truncate (dv : dev) (n : N) : dev :=
   mkdev (truncate_to (d_file dv) n) (Trunc n :: d_log dv) (d_faults dv).
+(* a Truncate call that may fail (the one OffsetWriteSeeker.Rewind issues after a failed section
+   write): it consumes one entry of the same script; Some _ = the call fails (or the writer has no
+   Truncate method) and the file stays as it is.  Resume's Truncate keeps using dev_truncate. *)
+Definition dev_try_truncate (dv : dev) (n : N) : dev * bool :=
+  match d_faults dv with
+  | Some _ :: rest => (mkdev (d_file dv) (d_log dv) rest, false)
+  | None :: rest => (mkdev (truncate_to (d_file dv) n) (Trunc n :: d_log dv) rest, true)
+  | [] => (dev_truncate dv n, true)
+  end.
 
 (* consecutive Write calls through an OffsetWriteSeeker / position-tracking writer starting at
    absolute offset abs: stops at the first failing call; returns the new absolute offset *)
@@ -198,12 +207,19 @@ Inductive out :=
 (* one block through ShouldPut + LdWrite + InsertNoReplace.
    A failed LdWrite that got some bytes of the section out (fix: C16-discard-partial-section):
    - seekable data writer (blockstore, storage on a WriterAt): OffsetWriteSeeker.Rewind truncates
-     the backing file at the section start and moves the writer back there (the backing objects
-     of the model can always truncate: *os.File);
-   - plain io.Writer: the bytes cannot be taken back, the store records a sticky write error
-     (StorageCar.writeErr) and refuses every later Put and Finalize.  For the storage kinds the
-     model keeps that flag in ws_finalized, which StorageCar does not otherwise use.
+     the backing file at the section start and moves the writer back there;
+   - when that Truncate fails or the writer has none (dev_try_truncate), and on a plain io.Writer,
+     the bytes cannot be taken back: the writer stays where it is and the store records a sticky
+     write error (writeErr) that refuses every later Put and Finalize.  For the storage kinds the
+     model keeps that flag in ws_finalized, which StorageCar does not otherwise use; for the
+     blockstore it replaces ws_roots (which ReadWrite does not otherwise keep: Roots() re-reads
+     the header) by [sticky_roots].  NOTE: bs_put_many / bs_finalize_ro below do not test the
+     blockstore's flag (they stay as every property built on them expects, and are exact as long
+     as Truncate does not fail); Fault.v wraps them with the test.
    Nothing written (error with 0 bytes on the first call): state unchanged. *)
+Definition sticky_roots : list bytes := [[]].     (* not a root list: the empty string is no CID *)
+Definition set_roots (s : wstate) (r : list bytes) : wstate :=
+  mkws (ws_dev s) (ws_idx s) (ws_pos s) (ws_closed s) (ws_finalized s) r (ws_opts s) (ws_kind s).
 Definition put_one (s : wstate) (c d : bytes) (p : cidp) : wstate * out :=
   let o := ws_opts s in
   match should_put o (ws_idx s) c p with
@@ -217,7 +233,14 @@ Definition put_one (s : wstate) (c d : bytes) (p : cidp) : wstate * out :=
     else if abs =? data_base o + n then (s1, OErr EOther)
     else match ws_kind s with
          | KStorage false => (set_flags s1 (ws_closed s1) true, OErr EOther)
-         | _ => (set_dev s (dev_truncate dv (data_base o + n)) n, OErr EOther)
+         | k =>
+           let '(dv', tok) := dev_try_truncate dv (data_base o + n) in
+           if tok then (set_dev s dv' n, OErr EOther)
+           else let s2 := set_dev s dv' (abs - data_base o) in
+                match k with
+                | KBlockstore => (set_roots s2 sticky_roots, OErr EOther)
+                | _ => (set_flags s2 (ws_closed s2) true, OErr EOther)
+                end
          end
   end.
 
